@@ -39,7 +39,7 @@ CHECKS = {
            "known classes).",
     'C07': "Proved (all inputs): at the level of the documented language an alternation is the union of its branches and a repetition is its body written out a "
            "permitted number of times, also in place inside any surrounding concatenation (C07_alternation_composes_in_place, C07_repetition_composes_in_place); "
-           "the program of a combinator matches exactly the union of its patterns' programs; alternation of programs is union; grouping mode is "
+           "the program of a combinator matches exactly the union of its patterns' programs; the tree `any` builds has as documented language exactly the union of the languages of its patterns (C07_combinator_language_is_the_union) and `any` of built globs never fails; alternation of programs is union; grouping mode is "
            "irrelevant to the language. Tie: any() tree/program/is_match. Oracle: substitution / unrolling / wrapping families compared on the implementation.",
     'C08': "Proved (all built globs x all texts): the partition equation at the level of the documented language (C08_partition_preserves_the_language: the texts of the "
            "glob are the invariant prefix followed by the texts of the postfix; a tree wildcard after the prefix gives up its separator; the prefix may be any run of "
